@@ -147,6 +147,10 @@ type RIB struct {
 	// can be fully resolved in the RIB. In the current implementation it
 	// is called only for IPv4 entries.
 	resolvedEntryHook ResolvedEntryFn
+
+	// postChangeHook is the hook supplied to SetPostChangeHook, retained so
+	// that it is also applied to network instances that are created later.
+	postChangeHook RIBHookFn
 }
 
 // RIBHolder is a container for a set of RIBs.
@@ -340,7 +344,14 @@ type pendingEntry struct {
 // SetPostChangeHook assigns the supplied hook to all network instance RIBs within
 // the RIB structure.
 func (r *RIB) SetPostChangeHook(fn RIBHookFn) {
+	r.nrMu.Lock()
+	r.postChangeHook = fn
+	holders := []*RIBHolder{}
 	for _, nir := range r.niRIB {
+		holders = append(holders, nir)
+	}
+	r.nrMu.Unlock()
+	for _, nir := range holders {
 		nir.mu.Lock()
 		nir.postChangeHook = fn
 		nir.mu.Unlock()
@@ -380,6 +391,7 @@ func (r *RIB) AddNetworkInstance(name string) error {
 	}
 
 	r.niRIB[name] = NewRIBHolder(name, rhOpt...)
+	r.niRIB[name].postChangeHook = r.postChangeHook
 	return nil
 }
 
